@@ -54,6 +54,36 @@ if "T_expected" in exp:
 sys.exit(1 if bad else 0)
 '''
 
+
+REPLAY_SEQ = r'''
+import sys
+import numpy as np
+from corr.C09_loads import run_sequence
+case = %(case)r
+exp = %(expected)r    # per checkpoint: {"R": {u: v}, "M": {u: [..]} or None, "center": [...], "scale": s}
+res = run_sequence(case)
+print("sequence:", [o["op"] + (":" + o["load"] if o["op"] == "load" else "") for o in case["sequence"]])
+if "error" in res:
+    print("implementation raised:", res["error"]); sys.exit(1)
+bad = False
+for cp, e in zip(res["checkpoints"], exp):
+    coords = np.array([[float.fromhex(v) for v in row] for row in res["snapshots"][cp["snapshot"]]])
+    Fv = np.array(cp["F"]); unk = cp["all_unknowns"]; c = np.array(e["center"]); tol = %(tol)r * e["scale"]
+    for u, R in e["R"].items():
+        col = Fv[:, unk.index(u)]
+        r = col.sum()
+        print("checkpoint after op", cp["op"], "unknown", u, ": resultant", r, "expected (current geometry)", R)
+        bad = bad or abs(r - R) > tol
+        if e["M"] is not None:
+            m = ((coords - c) * col[:, None]).sum(axis=0)
+            print("     first moments about", e["center"], ":", m.tolist(), "expected", e["M"][u])
+            bad = bad or any(abs(a - b) > tol for a, b in zip(m, e["M"][u]))
+    if "fresh_max_diff" in cp:
+        print("     max |F - F(fresh simulation on the moved mesh)| =", cp["fresh_max_diff"])
+        bad = bad or cp["fresh_max_diff"] > %(tol)r * max(cp["fresh_scale"], e["scale"])
+sys.exit(1 if bad else 0)
+'''
+
 DISPATCH = {("line", 1): (1, False), ("line", 2): (1, False), ("line", 3): (1, False),
             ("surf", 2): (1, True), ("surf", 3): (2, False),
             ("volume", 2): (2, True), ("volume", 3): (3, False),
@@ -172,6 +202,160 @@ def gen_cases(ctx):
     return cases
 
 
+def gen_sequences(ctx, first_id):
+    """load sequences on ONE simulation object: in-place moves, Bc_Init, repeated loads, mesh replacement."""
+    rng = ctx.rng
+    quick = ctx.tier == "quick"
+    m2 = [{"kind": "2d", "elemType": et, "L": 2, "H": 1, "ms": 0.5, "organised": True} for et in ("TRI3", "QUAD4", "TRI6", "QUAD8")]
+    m3 = [{"kind": "3d", "elemType": et, "L": 2, "H": 1, "T": 1, "ms": 1.0, "layers": 2, "organised": True} for et in ("PRISM6", "HEXA8", "TETRA4")]
+    order = {"TRI3": 1, "TRI6": 2, "QUAD4": 1, "QUAD8": 2, "TETRA4": 1, "HEXA8": 1, "PRISM6": 1}
+    templates = ["reinit-move-callable", "move-no-reinit", "recoord-other-groups", "repeat-same-load", "replace-mesh", "double-move"]
+    out = []
+    combos = [(m, tpl) for tpl in templates for m in (m2 + m3)]
+    rng.shuffle(combos)
+    if quick:
+        # every template at least twice, every mesh at least once
+        chosen, seen_t, seen_m = [], {}, set()
+        for m, tpl in combos:
+            if seen_t.get(tpl, 0) < 2 or m["elemType"] not in seen_m:
+                chosen.append((m, tpl)); seen_t[tpl] = seen_t.get(tpl, 0) + 1; seen_m.add(m["elemType"])
+        combos = chosen[:16]
+    for mesh, tpl in combos:
+        dim = 2 if mesh["kind"] == "2d" else 3
+        simu = "Thermal" if (dim == 2 and rng.random() < 0.25) else "Elastic"
+        unknowns_all = ["t"] if simu == "Thermal" else ["x", "y", "z"][:dim]
+        ext = [mesh["L"], mesh["H"], mesh.get("T", 0)]
+        st = {"s": F(1), "sh": [F(0)] * 3, "ext": ext}
+
+        def tr(a, v):
+            return float(st["s"] * F(v) + st["sh"][a])
+
+        def face(a, hi=True):
+            return {"type": "face", "axis": a, "value": tr(a, st["ext"][a] if hi else 0)}
+
+        def everything():
+            return {"type": "box", "lo": [tr(a, 0) for a in range(3)], "hi": [tr(a, st["ext"][a]) for a in range(3)]}
+
+        def load(kind, sel, vkind, deg_mesh=mesh):
+            k = rng.randint(1, len(unknowns_all))
+            un = rng.sample(unknowns_all, k)
+            deg = order[deg_mesh["elemType"]]
+            vals = [{"kind": "const", "v": rng.randint(-5, 5) or 2} if vkind == "const" else {"kind": vkind, "coeffs": rand_poly(rng, deg, dim)} for _ in un]
+            if rng.random() < 0.4:
+                sel = dict(sel, dup={"seed": rng.randrange(1 << 30), "n": rng.choice([0, 2])})
+            return {"op": "load", "load": kind, "selection": sel, "unknowns": un, "values": vals}
+
+        def move():
+            d = [F(rng.randint(-12, 12), 2) if a < dim else F(0) for a in range(3)]
+            if all(x == 0 for x in d):
+                d[0] = F(5)
+            st["sh"] = [a + b for a, b in zip(st["sh"], d)]
+            return {"op": "translate", "d": [float(x) for x in d]}
+
+        def recoord():
+            sc = rng.choice([F(2), F(1, 2), F(3)])
+            d = [F(rng.randint(-8, 8), 2) if a < dim else F(0) for a in range(3)]
+            st["s"] = st["s"] * sc
+            st["sh"] = [sc * a + b for a, b in zip(st["sh"], d)]
+            return {"op": "set_coord", "scale": float(sc), "shift": [float(x) for x in d]}
+
+        ax = rng.randrange(dim)
+        seq = []
+        if tpl == "reinit-move-callable":
+            seq = [load("surf", face(ax), "poly"), {"op": "check"}, {"op": "bc_init"}, move()]
+            seq += [load("surf", face(ax), "poly"), {"op": "check", "fresh": True}]
+        elif tpl == "move-no-reinit":
+            seq = [load("surf", face(ax), "poly"), move()]
+            seq += [load("surf", face(ax), "poly"), load("volume", everything(), "poly"), {"op": "check"}]
+        elif tpl == "recoord-other-groups":
+            seq = [load("volume", everything(), "poly"), load("surf", face(ax), "const"), {"op": "bc_init"}, recoord()]
+            seq += [load("surf", face((ax + 1) % dim), "poly"), load("surf", face(ax, hi=False), "poly"), load("volume", everything(), rng.choice(["poly", "nodal"])), {"op": "check", "fresh": True}]
+        elif tpl == "repeat-same-load":
+            l1 = load("surf", face(ax), rng.choice(["poly", "nodal"]))
+            seq = [l1, {"op": "check"}, dict(l1), dict(l1), {"op": "check", "fresh": True}, {"op": "bc_init"}, dict(l1), {"op": "check"}]
+        elif tpl == "replace-mesh":
+            other = rng.choice([m for m in (m2 if dim == 2 else m3) if m["elemType"] != mesh["elemType"]])
+            seq = [load("surf", face(ax), "poly"), move(), {"op": "check"}, {"op": "set_mesh", "mesh": other}]
+            st = {"s": F(1), "sh": [F(0)] * 3, "ext": [other["L"], other["H"], other.get("T", 0)]}
+            seq += [load("surf", face(ax), "poly", other), load("volume", everything(), "poly", other), {"op": "check", "fresh": True}]
+            seq += [move(), {"op": "bc_init"}, load("surf", face(ax), "poly", other), {"op": "check", "fresh": True}]
+        elif tpl == "double-move":
+            seq = [load("surf", face(ax), "const"), {"op": "bc_init"}, move(), load("volume", everything(), "poly"), {"op": "bc_init"}, recoord()]
+            seq += [load("surf", face(ax), "poly"), load("line" if dim == 2 else "surf", face((ax + 1) % dim), "nodal"), {"op": "check", "fresh": True}]
+        out.append({"id": first_id + len(out), "mesh": mesh, "simu": simu, "thickness": rng.choice([0.5, 2.0]) if dim == 2 else 1.0,
+                    "template": tpl, "sequence": seq})
+    return out
+
+
+def judge_sequences(ctx, seqs, results):
+    seen = set()
+    nchk = 0
+    for c in seqs:
+        r = results.get(c["id"])
+        tag = "sequence:%s" % c["template"]
+        if r is None or "error" in r:
+            key = "%s:raises" % tag
+            if key not in seen:
+                seen.add(key)
+                ctx.violation(key, "load sequence %s on %s raises: %s" % (c["template"], c["mesh"]["elemType"], (r or {}).get("error")),
+                              {"case": c, "traceback": (r or {}).get("traceback"), "replay_py": REPLAY_SEQ % dict(case=c, expected=[], tol=TOL)})
+            continue
+        exps, problems = [], []
+        for cp in r["checkpoints"]:
+            center = [F(ctx.rng.randint(-8, 8), 4) for _ in range(3)]
+            Rt, Mt, scale = {}, {}, 1e-12
+            same_geo = all(a["snapshot"] == cp["snapshot"] and a["mesh"] == cp["mesh"] for a in cp["active"])
+            try:
+                for a in cp["active"]:
+                    op = c["sequence"][a["op"]]
+                    cl = {"load": op["load"], "unknowns": op["unknowns"], "values": op["values"], "thickness": c["thickness"]}
+                    rl = {"coords": r["snapshots"][a["snapshot"]], "nodes": a["nodes"], "dim": r["dim"], "Nn": cp["Nn"], "groups": r["meshes"][a["mesh"]]}
+                    if not a["nodes"]:
+                        continue
+                    ex = expected_for(cl, rl, center)
+                    cmax = max([abs(float(cc)) for v in op["values"] for cc in poly_of(v).values()] + [1.0])
+                    big = max([abs(float.fromhex(v)) for row in rl["coords"] for v in row] + [1.0])
+                    scale = max(scale, float(ex["measure"]) * float(ex.get("tfac", 1)) * cmax * 8.0 * big ** 3)
+                    for u in op["unknowns"]:
+                        Rt[u] = Rt.get(u, F(0)) + ex["R"][u]
+                        Mt[u] = [x + y for x, y in zip(Mt.get(u, [F(0)] * 3), ex["M"][u])]
+            except ValueError:
+                exps.append({"R": {}, "M": None, "center": [0, 0, 0], "scale": 1.0})
+                continue
+            nchk += 1
+            cf = [float(x) for x in center]
+            e = {"R": {u: float(v) for u, v in Rt.items()}, "M": ({u: [float(x) for x in m] for u, m in Mt.items()} if same_geo else None),
+                 "center": cf, "scale": scale}
+            exps.append(e)
+            coordsf = [[float.fromhex(v) for v in row] for row in r["snapshots"][cp["snapshot"]]]
+            unk = cp["all_unknowns"]
+            for u in Rt:
+                col = [row[unk.index(u)] for row in cp["F"]]
+                if abs(sum(col) - e["R"][u]) > TOL * scale:
+                    problems.append(("resultant", "after op %d, unknown %s: sum of nodal forces %.12g, exact integral on the geometry at application time %.12g" % (cp["op"], u, sum(col), e["R"][u])))
+                if same_geo:
+                    Mi = [sum((coordsf[n][a] - cf[a]) * col[n] for n in range(len(col))) for a in range(3)]
+                    if max(abs(Mi[a] - e["M"][u][a]) for a in range(3)) > TOL * scale:
+                        problems.append(("moment", "after op %d, unknown %s: first moments %s, exact on the current geometry %s" % (cp["op"], u, Mi, e["M"][u])))
+            for u in unk:
+                if u not in Rt and any(row[unk.index(u)] != 0 for row in cp["F"]):
+                    problems.append(("other-dof", "after op %d: forces on dof %s which no active load addresses" % (cp["op"], u)))
+            if "fresh_max_diff" in cp and cp["fresh_max_diff"] > TOL * max(cp["fresh_scale"], scale):
+                problems.append(("fresh-simulation", "after op %d: the load vector differs from the one of a fresh simulation on the moved mesh by %.3g" % (cp["op"], cp["fresh_max_diff"])))
+        ctx.note_case("%s:%s:%s" % (tag, c["mesh"]["elemType"], c["simu"]))
+        for kind, msg in problems:
+            key = "%s:%s" % (tag, kind)
+            if key in seen:
+                continue
+            seen.add(key)
+            ops = [o["op"] + (":" + o["load"] if o["op"] == "load" else "") for o in c["sequence"]]
+            ctx.violation(key, "%s %s, one simulation object, ops %s: %s" % (c["simu"], c["mesh"]["elemType"], ops, msg),
+                          {"replay_py": REPLAY_SEQ % dict(case=c, expected=exps, tol=TOL), "case": c, "expected": exps})
+    ctx.cov["sequence_cases"] = len(seqs)
+    ctx.cov["sequence_checkpoints_compared"] = nchk
+    ctx.obligation("corr:load-sequences", not seen, "%d sequences, %d checkpoints; violation keys %s" % (len(seqs), nchk, sorted(seen)[:5]), n=max(len(seqs), 1))
+
+
 def poly_of(v):
     if v["kind"] == "const":
         return {(0, 0, 0): F(v["v"])}
@@ -269,14 +453,16 @@ def run(ctx):
         return
 
     cases = gen_cases(ctx)
-    rc, out, err = ctx.impl_python(CORR, input=json.dumps({"cases": cases}), timeout=1500)
+    seqs = gen_sequences(ctx, len(cases))
+    rc, out, err = ctx.impl_python(CORR, input=json.dumps({"cases": cases + seqs}), timeout=1500)
     if rc != 0 or "@@C09JSON@@" not in out:
         ctx.obligation("corr:impl-run", False, (err or out)[-1500:])
         ctx.violation("corr:impl-crash", "the implementation-side load script failed: %s" % ((err.strip().splitlines() or ["rc=%d" % rc])[-1][:300]),
                       {"stderr": err[-3000:]}, found_input=False)
         return
     results = {r["id"]: r for r in json.loads(out.split("@@C09JSON@@")[1])["cases"]}
-    ctx.obligation("corr:impl-run", True, "%d load cases" % len(cases))
+    ctx.obligation("corr:impl-run", True, "%d load cases, %d load sequences" % (len(cases), len(seqs)))
+    judge_sequences(ctx, seqs, results)
 
     # ---- selection algebra: Gallina model vs Get_Elements_Nodes ----
     body, ids = coq_select_cases(cases, results)
